@@ -758,3 +758,22 @@ def run(ctx, rep):
     loader(F, rep)
     rates_parser(F, rep)
     wiring(F, rep)
+    # "an amount written without a currency code is sterling and is not converted" — also for a FEES/TAX amount that follows a
+    # foreign-currency price on the same line: the consumers of the grammar build GBP for every amount without a code and keep the
+    # written code otherwise (symbolic evaluation over all derivation trees, shared with C13-R6). A money consumer that leaves the
+    # currency open for its caller to fill in with "the line's currency" converts `FEES 11.95` after `@ 150 USD` at the dollar rate
+    # (seeded change C08-s9)
+    if ctx.S is not None and "error" not in ctx.S["grammar"]:
+        import rules.c13 as c13
+        from grammar import Grammar
+        from core import Report
+        r2 = Report("tmp")
+        c13.defaults(ctx.S, Grammar(ctx.S["grammar"]), r2)
+        n = 0
+        for o in r2.obligations:
+            n += 1
+            rep.ob("R9", "dsl:" + o["instance"], o["ok"], o["detail"], o["site"], key="R9:dsl:" + o["instance"])
+        if n < 2:
+            rep.unresolved("R9", "dsl-defaults", f"only {n} currency/clause defaults evaluated")
+    else:
+        rep.unresolved("R9", "grammar", "grammar facts unavailable")
